@@ -238,6 +238,13 @@ func genCoOverflow() Gen {
 		{"caught-inside", func() []Stat {
 			return []Stat{Emit(Str("inner"), Paren(CallN("pcall", Func(nil, false, Return(CallN("select", Str("#"), CallN("unpack", Name("big")))))))), Emit(Str("got"), co("yield", Str("still-alive"))), Return(Str("end"))}
 		}},
+		{"string-byte", func() []Stat {
+			// (string.byte pushes its results one at a time: the stack is really full when the error is raised)
+			return []Stat{Return(CallN("select", Str("#"), Call(Dot(Name("string"), "byte"), Name("bigs"), Num(1), Un("-", Num(1)))))}
+		}},
+		{"string-byte-after-yield", func() []Stat {
+			return []Stat{Emit(Str("got"), co("yield", Str("first"))), Local1("n", CallN("select", Str("#"), Call(Dot(Name("string"), "byte"), Name("bigs"), Num(1), Un("-", Num(1))))), Return(Name("n"))}
+		}},
 		{"vararg-call", func() []Stat {
 			return []Stat{LocalFunc("va", Func(nil, true, Return(CallN("select", Str("#"), Vararg())))), Return(CallN("va", CallN("unpack", Name("big"))))}
 		}},
@@ -248,7 +255,8 @@ func genCoOverflow() Gen {
 				for _, nested := range []bool{false, true} {
 					b, how, nested := b, how, nested
 					yield(&Prog{Family: "F-cooverflow", Shape: fmt.Sprintf("%s/%s/nested=%v", b.name, how, nested), Mk: func() *Block {
-						st := []Stat{Local1("big", TableE()), NumFor("i", Num(1), Num(10000), nil, Assign1(Index(Name("big"), Name("i")), Name("i")))}
+						st := []Stat{Local1("big", TableE()), NumFor("i", Num(1), Num(10000), nil, Assign1(Index(Name("big"), Name("i")), Name("i"))),
+							Local1("bigs", Call(Dot(Name("string"), "rep"), Str("0123456789"), Num(1000)))}
 						var drive []Stat
 						if how == "create" {
 							drive = append(drive, Local1("co", co("create", Func(nil, true, b.mk()...))))
